@@ -110,7 +110,8 @@ FORMS = ["list", "vector", "ndarray"]
 STRINGS = ["", "a", "ab1", "aXa", " ", "é"]
 STRINGS_X = STRINGS + ["a\nb", "A"]
 PATTERNS = ["a", "[a-z]+", r"\d", "x*", "^", "$", "(a)(b)?", r"\s+"]
-REPLS = ["", "Z", r"[\g<0>]", "@upper"]
+REPLS = ["", "Z", r"[\g<0>]", "@upper", "@counter"]
+STRINGS_NUL = ["", "ab", "ab\x00", "\x00b"]   # NumPy's fixed-width strings drop trailing NULs
 
 # .str proxy: attribute -> argument tuples (referenced by index from a case)
 STR_MENU = {
@@ -241,6 +242,8 @@ def shards(tier):
     for pattern in PATTERNS:
         for flags in (0, int(re.I)):
             small.append({"part": "re", "alpha": "base", "pattern": pattern, "flags": flags, "n": 3, "first": None})
+    for pattern in PATTERNS + [r"\x00", r"b$"]:
+        small.append({"part": "re", "alpha": "nul", "pattern": pattern, "flags": 0, "n": 3, "first": None})
     small.append({"part": "str", "alpha": "base", "n": 2, "first": None})
     for first in range(len(STRINGS)):
         big.append({"part": "str", "alpha": "base", "n": 3, "first": first})
@@ -277,8 +280,11 @@ def run_shard(shard, rec):
                 cache[n] = dt_ops(part, unit, n)
             check_case({"part": "dt", "unit": unit, "toks": list(toks), "ops": cache[n]}, rec)
     elif part == "re":
-        alpha = STRINGS if shard["alpha"] == "base" else STRINGS_X
+        alpha = {"base": STRINGS, "ext": STRINGS_X, "nul": STRINGS_NUL}[shard["alpha"]]
         ops = re_ops(shard["pattern"], shard["flags"], shard.get("compiled", False))
+        if shard["alpha"] == "nul":
+            # np.str_("ab\x00") is 'ab' already (NumPy's scalar type trims), so the scalar route is left out here
+            ops = [dict(op, via=["module", "proxy", "stale_proxy"]) for op in ops]
         for toks in _vectors(alpha, shard["n"], shard["first"]):
             check_case({"part": "re", "toks": list(toks), "ops": ops}, rec)
     elif part == "str":
@@ -550,13 +556,36 @@ def upper_repl(m):
     return "<" + m.group(0).upper() + ">"
 
 
+def counter_repl():
+    """A replacement function with state: numbers the matches it is asked about, in the order it is asked."""
+    c = itertools.count(1)
+    return lambda m: f"{m.group(0)}#{next(c)}"
+
+
 def re_args(op):
     pattern = re.compile(op["pattern"], op["flags"]) if op.get("compiled") else op["pattern"]
     flags = 0 if op.get("compiled") else op["flags"]
     repl = op.get("repl")
     if repl == "@upper":
         repl = upper_repl
+    elif repl == "@counter":
+        repl = counter_repl()  # fresh state for every library call
     return pattern, flags, repl
+
+
+def counter_candidates(op, toks):
+    """With a stateful replacement function the statement fixes no order in which the elements are handled:
+    every order of handling each non-missing element exactly once is accepted."""
+    idx = [i for i, s in enumerate(toks) if s != ""]
+    out = []
+    for perm in itertools.permutations(idx):
+        pattern, flags, repl = re_args(op)
+        want = [None] * len(toks)
+        for i in perm:
+            want[i] = R.summary(R.re_call(op["op"], pattern, toks[i], flags=flags, repl=repl, count=op.get("count", 0)))
+        if want not in out:
+            out.append(want)
+    return out
 
 
 def re_call_impl(op, x, via_proxy):
@@ -594,7 +623,8 @@ def check_re(case, rec):
             continue
         okey = repr({k: v for k, v in op.items() if k != "via"})
         fn = op["op"]
-        want = [None if s == "" else R.summary(re_expected(op, s)) for s in toks]
+        stateful = op.get("repl") == "@counter"
+        wants = counter_candidates(op, toks) if stateful else [[None if s == "" else R.summary(re_expected(op, s)) for s in toks]]
         vias = list(op["via"]) if "via" in op else ["module", "proxy", "stale_proxy", "scalar"]
         base = None
         for via in vias:
@@ -620,13 +650,18 @@ def check_re(case, rec):
             raw = np.asarray(r).tolist()  # not Vector.tolist(): that one already maps missing to None
             got = [R.summary(g) for g in raw]
             bad = None
-            for i in range(n):
-                if toks[i] == "":
-                    if not na[i]:
-                        bad = ("na-flag", f"position {i} is '' (missing) but is_na() of the result is False there; result {raw!r}")
+            for want in wants:
+                bad = None
+                for i in range(n):
+                    if toks[i] == "":
+                        if not na[i]:
+                            bad = ("na-flag", f"position {i} is '' (missing) but is_na() of the result is False there; result {raw!r}")
+                            break
+                    elif got[i] != want[i]:
+                        bad = ("value", f"position {i} ({toks[i]!r}): got {got[i]!r}, re.{fn} gives {want[i]!r}; input {toks}"
+                               + (f" (a replacement function that numbers its calls; result {got} matches no order of handling each element once)" if stateful else ""))
                         break
-                elif got[i] != want[i]:
-                    bad = ("value", f"position {i} ({toks[i]!r}): got {got[i]!r}, re.{fn} gives {want[i]!r}; input {toks}")
+                if bad is None:
                     break
             if bad:
                 rec.violation(fn, bad[0], one, f"{via}: {bad[1]}")
